@@ -32,10 +32,17 @@ func scalarForString(t *rapid.T, label string, o ConfigOpts) Node {
 	if !o.NoNumbers {
 		switch rapid.IntRange(0, 9).Draw(t, label+"_kind") {
 		case 0:
+			if rapid.Bool().Draw(t, label+"_bigint") {
+				// magnitudes at which a float64 prints in exponent form unless it is converted deliberately
+				return rapid.SampledFrom([]int64{1000000, 20200101, 1234567890123, 9007199254740991, -1000000, 100000000000000000}).Draw(t, label+"_big")
+			}
 			return int64(rapid.IntRange(-1000, 100000).Draw(t, label+"_int"))
 		case 1:
 			return rapid.Bool().Draw(t, label+"_bool")
 		case 2:
+			if rapid.IntRange(0, 3).Draw(t, label+"_oddfloat") == 0 {
+				return rapid.SampledFrom([]float64{0.00001, 123456789.5, 1e-7, 2.5e10}).Draw(t, label+"_odd")
+			}
 			return float64(rapid.IntRange(-500, 500).Draw(t, label+"_f")) / 4
 		}
 	}
